@@ -3,7 +3,8 @@
    (contract, deliver_one, cover, justified, sound_along); proofs: Proofs/ContractProofs.v. *)
 Require Import WD.Base.Prelude WD.Base.BStr WD.Model.SubEvents WD.Model.Emitter WD.Model.Fs WD.Model.Reader
                WD.Model.DelayQueue WD.Model.Grouping WD.Model.Pipeline WD.Model.Contract.
-Require Import WD.Proofs.ContractProofs WD.Proofs.TieProofs WD.Proofs.MoveOutProofs WD.Proofs.CoverProofs WD.Proofs.ReplaceProofs.
+Require Import WD.Proofs.ContractProofs WD.Proofs.TieProofs WD.Proofs.MoveOutProofs WD.Proofs.CoverProofs WD.Proofs.ReplaceProofs
+               WD.Proofs.CoverOutProofs WD.Proofs.ReplayProofs WD.Proofs.ReplayOutProofs WD.Proofs.SoundSeqProofs.
 
 (* ================================================================== soundness: shape of what [emit] produces *)
 (* Hold for every item, every configuration, every content oracle - no hypothesis. *)
@@ -382,13 +383,52 @@ Print Assumptions C03_f10e_repaired.
 
 (* History-level soundness of the current code (all five reader repairs on): stated, NOT proved.  Nothing refutes it any
    more: F10, its nested variant and F10e are repaired (the three _repaired theorems above), and the thorough tier of this
-   check finds no unjustified event on the patched observer.  A proof needs the bookkeeping invariant (consistent,
-   normalised tables; every watch recorded under the present path of its inode) over all reader steps. *)
+   check finds no unjustified event on the patched observer.  Its sequential instance is proved (C03_sound_sequential:
+   block-wise histories of the class ops_x1); what is left are the interleavings - bursts of operations before a read,
+   partial reads, the pairing delay. *)
 Definition C03_sound_full_current : Prop :=
   forall P w s0 h, pc_filter P = None -> c_mask (pc_reader P) = WATCHDOG_ALL ->
     c_fix_ignored (pc_reader P) = true -> c_fix_movein (pc_reader P) = true -> c_fix_simulate (pc_reader P) = true ->
     c_fix_relabel (pc_reader P) = true -> c_fix_moveout (pc_reader P) = true ->
     pinit P w = Some s0 -> sound_along P s0 [] h = true.
+
+(* ================================================================== soundness along sequential histories *)
+(* Every event of a contract is justified by that very operation (executable [justified], the mirror of
+   pipeprops.justified): path in scope, kind, flavour, moved src/dest of one entry, synthetic only for descendants of the
+   moved/arrived directory; the DirModified made from the IN_ATTRIB of a directory that is replaced by a rename is explained
+   by that rename.  For every operation with normalised paths. *)
+Theorem C03_contract_justified : forall rec full root t o, op_np o ->
+  forall e, In e (contract rec full root t o) -> justified rec root [oprec_of t o] e = true.
+Proof. exact contract_justified. Qed.
+Print Assumptions C03_contract_justified.
+
+(* Every block (one operation, everything read, grouped, emitted) of a history of c02p's class ops_x1 - covered operations,
+   directory move-ins, directory move-outs and what follows them - delivers exactly the operation's contract, from every
+   state of the invariant GS (synchronised up to junk / right after a directory left the tree). *)
+Theorem C03_block_contract : forall C full, c_faults C = [] -> c_fix_moveout C = true -> c_mask C = WATCHDOG_ALL ->
+  forall w k r hot o w', GS C w k r hot -> step_ok1 C w hot o -> apply_op w o = Some w' ->
+  let k1 := kernel_op k (w_fs w) o in
+  exists r' k' raws, read_batch C (w_fs w') (r, drainq k1, []) (k_queue k1) = Done (r', k', raws) /\
+    GS C w' k' r' (hot_next C w hot o) /\
+    collapse (delivered C full w' raws) = collapse (contract (c_recursive C) full (c_root C) (w_fs w) o).
+Proof. exact gs_contract_step. Qed.
+Print Assumptions C03_block_contract.
+
+(* The sequential instance of C03_sound_full_current: along every ops_x1 history run block-wise ([srun]: op; read the whole
+   kernel queue; group; emit; every delivered event must be [justified] by the operations executed so far), from every GS
+   state, no unjustified event is ever delivered.  Full mask, no add_watch faults, the move-out repair on; the other flags
+   as the operation classes require them (c_fix_movein for move-ins). *)
+Theorem C03_sound_sequential : forall C full, c_faults C = [] -> c_fix_moveout C = true -> c_mask C = WATCHDOG_ALL ->
+  forall ops w k r hot recs, GS C w k r hot -> ops_x1 C w hot ops -> srun C full w k r ops recs = Some true.
+Proof. exact sound_sequential_x. Qed.
+Print Assumptions C03_sound_sequential.
+
+(* ... in particular from Inotify.__init__ on any well-formed world *)
+Theorem C03_sound_sequential_from_start : forall C full, c_faults C = [] -> c_fix_moveout C = true -> c_mask C = WATCHDOG_ALL ->
+  forall ops w, wf_fs w -> fisdir (c_root C) (w_fs w) = true -> ops_x1 C w None ops ->
+  exists r0 k0, construct C kinit (w_fs w) = Some (r0, k0) /\ srun C full w k0 r0 ops [] = Some true.
+Proof. exact sound_from_start_x. Qed.
+Print Assumptions C03_sound_sequential_from_start.
 
 (* ================================================================== tie to the Pipeline model *)
 (* [deliver_one] is what the Pipeline model (validated in lock-step against the real observer) delivers for
@@ -576,3 +616,16 @@ Proof.
   split; [vm_compute; eexists; repeat split|]. split; [vm_compute; eexists; repeat split|].
   repeat split; vm_compute; congruence.
 Qed.
+
+(* C03_sound_sequential on the former phantom history: mkdir R/b; mv R/b O/x (the directory leaves the tree); mkdir R/b (the
+   name is re-created while the move-out candidate is pending); mv R/b R/a; touch O/x/g (the operation that used to
+   produce the phantom event).  The history is in ops_x1; [srun] says sound; the stream has 9 events, none below /s/O;
+   and the Pipeline model run block-wise (AOp; ARead; ATick; AEmit x4 per operation) passes [sound_along]. *)
+Example C03_sound_sequential_nonvacuous :
+  ops_x1 (cfgo true) w0 None phx_ops /\
+  (exists r0 k0, construct (cfgo true) kinit (w_fs w0) = Some (r0, k0) /\
+    srun (cfgo true) false w0 k0 r0 phx_ops [] = Some true /\
+    exists w' k' r' out, drun (cfgo true) false w0 k0 r0 phx_ops [] = Some (w', k', r', out) /\
+      length out = 9%nat /\ forallb (fun e => negb (under pO (ev_src e))) out = true) /\
+  (exists s0, pinit phx_P w0 = Some s0 /\ sound_along phx_P s0 [] (block_history phx_ops) = true).
+Proof. split; [exact phx_ops_x1 | split; [exact phx_run | exact phx_pipeline]]. Qed.
